@@ -27,7 +27,7 @@
 (*   "impl_pop"     D6  iterator.py:417-418,432-433  pop(i - j) over the ascending index list    *)
 (*                      with Python negative-index semantics                                     *)
 (*   "impl_dup"     D5  molecule.py:544-550  duplicate bit only ever set, never cleared on rank 0 *)
-(*   "impl_contig"  D20 fragment.py:860-876  plain Fragment.__eq__ does not compare the contig    *)
+(*   "impl_contig"  D60 fragment.py:860-876  plain Fragment.__eq__ does not compare the contig    *)
 EXTENDS Integers, Sequences, FiniteSets, TLC, Json, Util, MolAssignProps
 
 CONSTANTS Kind,       \* "nla" | "chic" | "plain"
